@@ -530,7 +530,10 @@ func (rpm *receivedProviderMessage) debugMessage() {
 
 func (rpm *receivedProviderMessage) handle(pqm *ProviderQueryManager) {
 	requestStatus, ok := pqm.inProgressRequestStatuses[rpm.k]
-	if !ok {
+	if !ok || requestStatus.ctx != rpm.ctx {
+		// Nobody is waiting for this CID anymore, or the provider comes from
+		// a previous query for it that was canceled while a new one was
+		// started: the new query reports the provider itself.
 		log.Debugf("Received provider (%s) for cid (%s) not requested", rpm.p.String(), rpm.k.String())
 		return
 	}
@@ -551,8 +554,10 @@ func (fpqm *finishedProviderQueryMessage) debugMessage() {
 
 func (fpqm *finishedProviderQueryMessage) handle(pqm *ProviderQueryManager) {
 	requestStatus, ok := pqm.inProgressRequestStatuses[fpqm.k]
-	if !ok {
-		// we canceled the request as it finished.
+	if !ok || requestStatus.ctx != fpqm.ctx {
+		// We canceled the request as it finished, or we canceled it and a
+		// new query for the same CID was started since: the message of the
+		// old query must not finish the new one.
 		return
 	}
 	for listener := range requestStatus.listeners {
